@@ -321,8 +321,12 @@ def check_handlers(ix, rep, cls, hs):
     # the normalisers the handlers take their bounds from convert to samples: b * U[unit] / (period * U[period unit]), unit = own, else the other
     # bound's, else the default (the evaluation's conversion, R-DIM of C08)
     from sa.rules import units as _units
+    from sa.rules import memo as _memo
     for g in normalisers.values():
         _units.check_transformer(ix, rep, None, None, 'samples', func=g)
+        # a normaliser that remembers its answers: everything they depend on renews the memo (the period can change between two explain() calls)
+        if g.owner is not None:
+            _memo.check_method(ix, rep, cls, g, 'normaliser')
     rep.floor('bound normalisers used by the explanation handlers', len(normalisers), 1)
     return n
 
@@ -549,6 +553,19 @@ def check_nonmonotone(ix, rep, cls, hs, rule='R-POLARITY'):
                     have.add(flag.value)
             if have == {True, False}:
                 rep.ok(rule, f.module.rel, f.qual, slot, 'asked as holding where its own value is >= 0 and as violated where it is < 0', f.node.lineno)
+                # necessary, not sufficient: the *value* of iff/xor is -|l - r| / |l - r|, so it also changes when an operand keeps its truth value
+                # and changes its magnitude.  A sufficient cause has to pin the operand's value, i.e. report its whole support; the explainer
+                # only has polarity-directed explanations (a holding `p -> q` is explained by whichever side makes it hold).  Sound forms: the
+                # handler rejects operands that are not predicates, or asks for the full support (no such mode exists in the explainer).
+                rejects = any(isinstance(x, ast.Raise) for x in ast.walk(f.node))
+                sslot = 'explainer:%s:full-support:%d' % (nc.name, k)
+                if rejects:
+                    rep.ok('R-SUPPORT', f.module.rel, f.qual, sslot, 'compound operands are rejected', f.node.lineno)
+                else:
+                    rep.fail('R-SUPPORT', f.module.rel, f.qual, sslot, 'the value of %s is %s|l - r|: it changes with the magnitude of an operand, not only with its truth value, so a '
+                             'sufficient cause has to contain everything operand %d depends on.  The operand is explained by polarity (what makes it hold / fail), which for a compound '
+                             'operand is a part of its support: `((x>=0) -> (y>=0)) iff (z>=0)` with x = -2, y = -1, z = 5 is violated (-3), x@0 and z@0 are reported, and y@0 := 5 '
+                             'makes both sides 5 and the formula hold' % (nc.name, '-' if nc.name == 'Iff' else '', k), f.node.lineno)
             else:
                 rep.fail(rule, f.module.rel, f.qual, slot, '%s is not monotone in operand %d, but the operand is not asked with its own polarity (as holding on the requested samples where '
                          'it holds, as violated on the others; found: %s): in a violated `p %s q` an operand that holds is asked why it is violated and reports nothing -- re-assigning '
@@ -721,6 +738,45 @@ def check_accumulation(ix, rep, cls, rule='R-ACCUM'):
         rep.fail(rule, ex.module.rel, ex.qual, 'gate', 'explain() does not start from ([[0,0]], violated) guarded by `top_signal[0] < 0`', ex.node.lineno)
 
 
+def check_output_only(ix, rep, cls, rule='R-ACCUM'):
+    """"the specification" is the assertion evaluate() returns -- the last entry of ast.specs; the sub-specifications in front of it are explained
+    where it refers to them.  An explain() that starts a traversal at every entry reports, for a *satisfied* specification, the samples of a
+    violated sub-specification (say the antecedent of an implication): the property's second clause, "for a specification that is satisfied at time
+    0 nothing is reported"."""
+    n = 0
+    seen = set()
+    for k in ix.mro(cls):
+        ex = getattr(k, 'methods', {}).get('explain')
+        if ex is None or id(ex) in seen:
+            continue
+        seen.add(id(ex))
+        rep.analysed(ex)
+        n += 1
+        loops = [l for l in ast.walk(ex.node) if isinstance(l, ast.For) and ast.unparse(l.iter).endswith('.specs')
+                 and any(isinstance(c, ast.Call) and D._self_call(c) == 'visit' for c in ast.walk(l))]
+        visits = [c for c in ast.walk(ex.node) if isinstance(c, ast.Call) and D._self_call(c) == 'visit']
+        last = False
+        for c in visits:
+            a = c.args[0] if c.args else None
+            e = a
+            if isinstance(a, ast.Name):
+                ds = [st.value for st in ast.walk(ex.node) if isinstance(st, ast.Assign) and len(st.targets) == 1 and isinstance(st.targets[0], ast.Name) and st.targets[0].id == a.id]
+                if len(ds) == 1:
+                    e = ds[0]
+            t = ast.unparse(e).replace(' ', '') if e is not None else ''
+            if t.endswith('.specs[-1]') or ('.specs[len(' in t and t.endswith('.specs)-1]')):
+                last = True
+        if loops:
+            rep.fail(rule, ex.module.rel, ex.qual, 'output-only', 'explain() starts a traversal at every entry of ast.specs whose value at 0 is negative: a sub-specification that is violated is '
+                     'explained although the specification (the last assertion, the one evaluate() returns) is satisfied -- `p = (x>=0); out = p or (y>=0)` with x = -1, y = 2 is '
+                     'satisfied (2.0) and x@0 is reported', loops[0].lineno)
+        elif last:
+            rep.ok(rule, ex.module.rel, ex.qual, 'output-only', 'only the output assertion (last entry of ast.specs) is explained', ex.node.lineno)
+        else:
+            raise AnalysisError('%s: which assertion explain() starts from is not recognised' % ex.where)
+    return n
+
+
 def check_union(ix, rep, rule='R-ACCUM'):
     """the merging primitive: sorted iteration, overlap-or-adjacent test, merged end = max of the two ends"""
     n = 0
@@ -769,6 +825,8 @@ def check(ix, rep):
     na = check_all_intervals(ix, rep, hs)
     rep.floor('helpers checked for honouring every interval', na, 20)
     check_accumulation(ix, rep, cls)
+    noo = check_output_only(ix, rep, cls)
+    rep.floor('explain() entry points', noo, 2)
     nfp = check_footprints(ix, rep, cls, hs)
     nnm = check_nonmonotone(ix, rep, cls, hs)
     from sa.rules import units as _u
